@@ -14,7 +14,7 @@
    Domain: whole non-negative ballot weights (votes : Dict[RankedVoteType, int]).  On a pile
    with a fractional or negative weight Hare._subtract takes another code path (weights
    scaled by the largest denominator); that path is not modelled: [HS_unmodelled].
-   Proofs/STVHare_proofs.v shows that it is never reached from whole non-negative votes.
+   Proofs/STVHare_count_proofs.v shows that it is never reached from whole non-negative votes.
 
    LargestRemainder('hare').evaluate(selection, n, max_seats=weights) at the end of
    distribute_n_random(limit_by_weight=True) is the identity on a selection of n draws
